@@ -91,6 +91,16 @@ fire("C19", "value changed after it was stored (first grid differs from cached o
       "            if cache:\n                cache_dict[degree] = points, weights\n            weights = weights / np.sum(weights)\n"))
 fire("C19", "cache hit swaps the stored pair", "R5.cache-transparent",
      ("sub", "angular.py", "            points, weights = cache_dict[degree]\n", "            weights, points = cache_dict[degree]\n"))
+fire("C19", "size->degree memo keyed by the size alone (method ignored)", "R6.memo-key-complete",
+     ("sub", "angular.py", "            deg = AngularGrid._get_degree_and_size(degree=None, size=size, method=method)[0]\n",
+      "            deg = _SIZE_MEMO.get(int(size))\n            if deg is None:\n                deg = AngularGrid._get_degree_and_size(degree=None, size=size, method=method)[0]\n                _SIZE_MEMO[int(size)] = deg\n"),
+     ("sub", "angular.py", "# Cache is used to store the angular grid\n", "_SIZE_MEMO = {}\n# Cache is used to store the angular grid\n"))
+silent("C19", "size->degree memo keyed by (method, size)",
+     ("sub", "angular.py", "            deg = AngularGrid._get_degree_and_size(degree=None, size=size, method=method)[0]\n",
+      "            deg = _SIZE_MEMO.get((method, int(size)))\n            if deg is None:\n                deg = AngularGrid._get_degree_and_size(degree=None, size=size, method=method)[0]\n                _SIZE_MEMO[(method, int(size))] = deg\n"),
+     ("sub", "angular.py", "# Cache is used to store the angular grid\n", "_SIZE_MEMO = {}\n# Cache is used to store the angular grid\n"))
+fire("C19", "inherited method re-opens the inferred scale", "R3.transform-stateless",
+     ("sub", "rtransform.py", "        new_points = self.transform(oned_grid.points)\n", "        self._b = None\n        new_points = self.transform(oned_grid.points)\n"))
 silent("C19", "freeze-on-fill instead of copy-on-read",
        ("sub", "angular.py", "            if cache:\n                cache_dict[degree] = points, weights\n",
         "            if cache:\n                points.setflags(write=False)\n                weights.setflags(write=False)\n                cache_dict[degree] = points, weights\n"),
